@@ -147,6 +147,7 @@ class Exec:
     def decide(self, cond):
         if isinstance(cond, bool):
             return cond
+        self.flush_div()
         cond = z3.simplify(cond)
         if z3.is_true(cond):
             return True
@@ -182,15 +183,31 @@ class Exec:
     def recording(self):
         return len(self.decisions) >= len(self.forced)
 
+    def flush_div(self):
+        if S.DIV_INSTANCES:
+            inst, S.DIV_INSTANCES[:] = list(S.DIV_INSTANCES), []
+            for a, b in inst:
+                key = (a.get_id(), b.get_id())
+                if key in self.div_seen:
+                    continue
+                self.div_seen.add(key)
+                self.hyps.append(S.div_facts(a, b))
+
     def oblige(self, kind, label, goal, node=None, props=None, detail=''):
         """record and immediately check a proof obligation: hyps |- goal; afterwards goal is assumed"""
+        self.flush_div()
         if isinstance(goal, bool):
             goal = z3.BoolVal(goal)
         line = node.get('_line') if isinstance(node, dict) else node
         if self.guards:
             goal = z3.Implies(z3.And(*self.guards), goal)
         if self.recording and not self.dry and (self.only_labels is None or label in self.only_labels):
-            name = '%s/%s:%s' % (self.fname, kind, label) + ('@L%s' % line if line and kind not in ('ensures', 'throws', 'frame') else '')
+            loc = ''
+            if line and kind not in ('ensures', 'ensures_exc', 'throws', 'frame'):
+                fn_ = self.cur_fnode if getattr(self, 'cur_fnode', None) is not None else self.fnode
+                base = fn_.get('_line') or 0
+                loc = '@' + ('' if fn_ is self.fnode else (fn_.get('name', '?') + ':')) + '+%d' % (line - base)
+            name = '%s/%s:%s' % (self.fname, kind, label) + loc
             g = z3.simplify(goal)
             if z3.is_true(g):
                 st, model, secs = 'discharged', None, 0.0
@@ -224,6 +241,13 @@ class Exec:
                 secs = time.time() - t
                 self.solver_secs += secs
                 self.nqueries += 1
+                import os as _os
+                dump = _os.environ.get('VERIF_DUMP')
+                if dump and dump in name and r != z3.unsat:
+                    fn_ = '/tmp/vc_%d.smt2' % self.nqueries
+                    with open(fn_, 'w') as fh:
+                        fh.write(s.to_smt2())
+                    print('dumped', name, fn_, 'hyps', len(self.hyps))
                 model = None
                 if r == z3.unsat:
                     st = 'discharged'
@@ -243,6 +267,19 @@ class Exec:
                 else:
                     st = 'unknown'
                     detail = (detail + ' ' + s.reason_unknown()).strip()
+                    # candidate counterexample: satisfiable without the quantified hypotheses? (not a proof of
+                    # violation; handed to the native replay, which decides)
+                    try:
+                        s2 = self.mk_solver(3000)
+                        for h in self.hyps:
+                            if not _has_quant(h):
+                                s2.add(h)
+                        s2.add(z3.Not(goal))
+                        if not _has_quant(goal) and s2.check() == z3.sat:
+                            model = self.minimise(s2) or self.model_of(s2.model())
+                            detail += ' candidate-model-without-quantified-hypotheses'
+                    except Exception:
+                        pass
             if props is None:
                 props = self.contract.serves if self.contract else ()
             self.obligations.append(Obligation(name, kind, label, tuple(props), st, model, secs, line,
@@ -412,6 +449,8 @@ class Exec:
         v = z3.simplify(val)
         if z3.is_int_value(v):
             return z3.IntVal(v.as_long() % (1 << bits))
+        if self.fits(val, 0, hi):
+            return val
         c = self.cur_contract
         if c is not None and c.nowrap and what in ('add', 'sub', 'mul', 'incdec'):
             # the contract demands the mathematical value: prove that the unsigned operation does not wrap
@@ -419,8 +458,30 @@ class Exec:
             return val
         return val % (1 << bits)
 
+    def fits(self, val, lo, hi):
+        """True only if the quantifier-free path hypotheses entail lo <= val <= hi (then the modular
+        reduction of a conversion / unsigned operation is the identity and is omitted from the VC)"""
+        v = z3.simplify(val)
+        if z3.is_int_value(v):
+            return lo <= v.as_long() <= hi
+        self.flush_div()
+        s = self.mk_solver(150)
+        for h in self.hyps:
+            if not _has_quant(h):
+                s.add(h)
+        for g in self.guards:
+            s.add(g)
+        s.add(z3.Or(val < lo, val > hi))
+        t = time.time()
+        r = s.check()
+        self.solver_secs += time.time() - t
+        return r == z3.unsat
+
     def wrap_to(self, val, sh):
         bits, signed = sh[1], sh[2]
+        lo, hi = int_range(bits, signed)
+        if self.fits(val, lo, hi):
+            return val
         v = z3.simplify(val)
         if z3.is_int_value(v):
             x = v.as_long() % (1 << bits)
@@ -891,8 +952,6 @@ class Exec:
         raise Unsupported('binary op ' + op)
 
     def tdiv(self, x, y, sr):
-        if sr[0] == 'int' and not sr[2]:
-            return x / y  # operands non-negative
         return S.tdiv(x, y)
 
     def ptr_binop(self, op, x, y, n):
@@ -1132,6 +1191,7 @@ class Exec:
                 v = self.calls.default_construct(self, sh, d)
         self.store[d['id']] = v
         self.names[d['name']] = Path(d['id'])
+        self.var_shapes[d['id']] = sh
         self.version += 1
 
     def coerce(self, v, sh):
